@@ -19,13 +19,15 @@ RULE = (
     'k > n, or nesting >= 2, or offset > 0, or a composition with an empty part / '
     '>= 2 parts; distinct = the tuple itself')
 ASSUMPTIONS = [
+    'a shard rebuilt from its recorded state (from_state(shard.state)) must also RECORD that state again (state idempotence): a rebuilt shard is what a resumed job checkpoints next, a state that changes with every rebuild is not a position',
     'list / tuple / ndarray / user RandomAccess parts; data values are unique ints',
     'offsets range over 0..len(shard) (a resumed position inside the shard)',
     'slice bounds range over None and [-len-2, len+2] (clamped like list slicing)',
 ]
 REQUIRED = ['shard_checks', 'merged_index_checks', 'merged_slice_checks',
             'from_state_checks', 'iterable_shard_checks', 'iterable_nested_shard_checks',
-            'failing_record_checks']
+            'failing_record_checks', 'state_idempotence_checks',
+            'state_idempotence_checks_iterable']
 EXHAUSTIVE = {'quick': True, 'thorough': True}
 
 
@@ -221,6 +223,49 @@ def _expected_path(data, path):
   return cur
 
 
+K_GROW = 'from-state-grows-state-by-one-level-per-restore'
+LAW_WITNESSES_PER_CLASS = 3
+
+
+def _levels(state):
+  """[(shard_index, num_shards, start_index), ...] root first (walked iteratively)."""
+  out = []
+  while state is not None:
+    out.append((state.shard_index, state.num_shards, state.start_index))
+    state = state.parent
+  return out[::-1]
+
+
+def _without_default_root_levels(levels):
+  while len(levels) > 1 and levels[0] == (0, 1, 0):
+    levels = levels[1:]
+  return levels
+
+
+def check_state_law(ctx, case, kind, recorded, rebuilt, extra):
+  """The shard rebuilt from a recorded state records that very state.
+
+  Key: input class = SequenceDataSource ('seq'); signature = the rebuilt shard's
+  state is the recorded one plus ShardConfig(0, 1, 0) levels at the root end of the
+  parent chain. Anything else gets a key of its own."""
+  ctx.count('state_idempotence_checks')
+  if kind == 'iter':
+    ctx.count('state_idempotence_checks_iterable')
+  a, b = _levels(recorded), _levels(rebuilt.state)
+  if a == b:
+    return
+  grew = (kind == 'seq' and len(b) > len(a)
+          and _without_default_root_levels(a) == _without_default_root_levels(b))
+  mech = K_GROW if grew else f'{kind}-rebuilt-shard-records-another-state'
+  ctx.count('viol:' + mech)
+  seen = ctx.__dict__.setdefault('_c09_law_seen', {})
+  seen[mech] = seen.get(mech, 0) + 1
+  if seen[mech] <= LAW_WITNESSES_PER_CLASS:
+    ctx.violation('rebuilt_shard_state_differs', case,
+                  dict(extra, recorded=a[:8], state_of_the_rebuilt_shard=b[:8]),
+                  mechanism=mech)
+
+
 def check_shard_case(ctx, case):
   """case = {'root':..., 'n':..., 'split':..., 'prefix': path, 'k': k}.
 
@@ -258,6 +303,7 @@ def check_shard_case(ctx, case):
       if list(rebuilt) != l or len(rebuilt) != len(l):
         ctx.violation('from_state_differs', case,
                       {'shard': i, 'got': list(rebuilt), 'want': l})
+      check_state_law(ctx, case, 'seq', s.state, rebuilt, {'shard': i})
     # offsets inside the shard (a resumed position)
     for off in range(1, len(l) + 1):
       so = parent.shard(i, k, off)
@@ -271,6 +317,7 @@ def check_shard_case(ctx, case):
       if list(rb) != l[off:]:
         ctx.violation('from_state_offset', case,
                       {'shard': i, 'offset': off, 'got': list(rb), 'want': l[off:]})
+      check_state_law(ctx, case, 'seq', so.state, rb, {'shard': i, 'offset': off})
 
 
 def check_iterable_case(ctx, case):
@@ -294,10 +341,12 @@ def check_iterable_case(ctx, case):
     lists.append(l)
     if l != sorted(l):
       ctx.violation('iterable_order', case, {'shard': i, 'got': l})
-    rb = list(root.from_state(s.state))
+    rebuilt = root.from_state(s.state)
+    rb = list(rebuilt)
     ctx.count('from_state_checks')
     if rb != l:
       ctx.violation('iterable_from_state', case, {'shard': i, 'got': rb, 'want': l})
+    check_state_law(ctx, case, 'iter', s.state, rebuilt, {'shard': i})
     if list(s) != l:
       ctx.violation('iterable_reiterate', case, {'shard': i})
   flat = sorted(itertools.chain.from_iterable(lists))
@@ -317,7 +366,9 @@ def check_iterable_case(ctx, case):
         if l != sorted(l):
           ctx.violation('iterable_order', case, {'shard': [i, k, j, m], 'got': l},
                         mechanism='iterable-nested-shard')
-        rb = list(root.from_state(sub.state))
+        rebuilt = root.from_state(sub.state)
+        rb = list(rebuilt)
+        check_state_law(ctx, case, 'iter', sub.state, rebuilt, {'shard': [i, k, j, m]})
         ctx.count('from_state_checks')
         if rb != l:
           ctx.violation('iterable_from_state', case,
@@ -409,8 +460,10 @@ def _check_shard_case_light(ctx, case):
     if len(s) != len(lists[i]):
       ctx.violation('len_mismatch', case, {'shard': i})
     ctx.count('from_state_checks')
-    if list(root.from_state(s.state)) != lists[i]:
+    rebuilt = root.from_state(s.state)
+    if list(rebuilt) != lists[i]:
       ctx.violation('from_state_differs', case, {'shard': i})
+    check_state_law(ctx, case, 'seq', s.state, rebuilt, {'shard': i})
 
 
 # ---------------------------------------------------------------------------
